@@ -49,6 +49,11 @@ CHECKS = {
         "note": "Trusted: ast, the analyser, contextlib.contextmanager semantics, frozen dataclass immutability (checked). Not decided: nothing of substance.",
         "technique": "effect analysis over the call graph + dominance (must-pass-through) + syntactic provenance of arguments (static)",
     },
+    "C19": {
+        "text": "Kind evaluation of the trap decode closure against the SNMP message schema (every subscript / unpack / attribute must be valid for its kind; MPM selected by the version integer), dominance of the source assignment and of the decode over the single callback scheduling, an unconditional forwarding receiver that never closes its transport, and the community check on every path of the community MPM decode.",
+        "note": "Trusted: ast, the analyser, RFC message schema. Not decided: UDP delivery, asyncio's handling of a raising callback/datagram handler, notification contents beyond binding positions.",
+        "technique": "schema-kind evaluation + dominance (must-pass-through) + who-may-close (static)",
+    },
 }
 
 _PENDING = "check not built yet in this revision of /verif (DESIGN.md section 5 describes the planned static rules)"
